@@ -4,14 +4,32 @@ import Syzgy.Lemmas.Scan
 -/
 namespace Syzgy.C02
 
-/-- Opening a file that consists of well-formed segments (plus an optional zero tail) never fails
-    and reconstructs index, free map and sequence number as the segment-level fold — whatever
-    the segments are (any number, any ids, any payload sizes). -/
-theorem open_reconstructs (segs : List Seg) (hok : ∀ s ∈ segs, s.OK) (z : Nat) :
-    let A := scanSegs 0 segs { index := [], seqs := [], free := [], highest := 0 }
-    scanFile (render segs ++ zeros z) =
-      .ok { file := render segs ++ zeros z, index := A.index,
+/-- Opening a file that consists of well-formed segments (plus an optional zero tail) never fails,
+    in any mode, and reconstructs index, free map and sequence number as the segment-level fold —
+    whatever the segments are (any number, any ids, any payload sizes). The only stores issued are
+    the fold's patches (superseded versions) and the FREE header of a zero tail, and none when the
+    file is opened read-only. -/
+theorem open_reconstructs (segs : List Seg) (hok : ∀ s ∈ segs, s.OK) (z : Nat) (ro : Bool) :
+    let file := render segs ++ zeros z
+    let A := scanSegs file ro 0 segs { index := [], seqs := [], free := [], highest := 0 }
+    scanFile file ro =
+      .ok { file := applyPatches file (A.patches ++ tailPatch ro (segsSize segs) z), index := A.index,
             free := markFree A.free (segsSize segs) z, seq := (A.highest + 1) % 4294967296 } :=
-  scanFile_render segs hok z
+  scanFile_render segs hok z ro
+
+/-- Reopening a quiescent file (a gap-free chain in which every record id is active at most once):
+    no byte of the file changes, in read-only and writable modes alike; the index is exactly
+    `{id ↦ offset}` of the active segments, the free map the FREE segments, and the sequence counter
+    is above every stored sequence number. The reopen options play no role. -/
+theorem reopen_quiescent (segs : List Seg) (hok : ∀ s ∈ segs, s.OK) (hnd : (actRids segs).Nodup) (ro : Bool) :
+    scanFile (render segs) ro =
+      .ok { file := render segs, index := indexRev 0 segs [], free := freeFold 0 segs [],
+            seq := (maxSeq segs 0 + 1) % 4294967296 } :=
+  scanFile_quiescent segs hok hnd ro
+
+/-- read-only open never stores through the mapping, whatever the file contains -/
+theorem readonly_no_store (file : Bytes) (acc : ScanAcc) (off : Nat) :
+    (freeSuperseded file true acc off).patches = acc.patches := by
+  simp [freeSuperseded]
 
 end Syzgy.C02
